@@ -11,8 +11,8 @@ PROPS = {
         regress="TestC16Regress",
         subs=[
             dict(test="TestC16Exhaustive", kind="plain"),
-            dict(test="TestC16Laws", quick=20000, thorough=200000),
-            dict(test="TestC16Schema", quick=6000, thorough=40000),
+            dict(test="TestC16Laws", quick=40000, thorough=800000),
+            dict(test="TestC16Schema", quick=12000, thorough=160000),
         ],
         rule="Rel values: exhaustive over names of length <=2 over {a,b} x 4 cardinalities (9 604 values), plus random names "
              "over {a,b,_} of length 0..3 with forced concatenation collisions; oracle = the laws of C16 (Invert involution, "
@@ -28,7 +28,7 @@ PROPS = {
     ),
     "C01": dict(
         regress="TestC01Regress",
-        subs=[dict(test="TestC01RoundTrip", quick=8000, thorough=60000)],
+        subs=[dict(test="TestC01RoundTrip", quick=16000, thorough=240000)],
         rule="Generated coherent schema (1-4 types, soft or reflect.StructOf-backed through BuildType, 1 in 6 types carrying all 28 kinds), "
              "one resource with boundary-biased values (width min/max, uint64>2^63, hostile/NUL/astral strings, zoned sub-second times in "
              "years 1..9999, empty and binary byte strings, typed nil and non-nil nullable values, to-many lists incl. repeated IDs), marshaled "
@@ -39,7 +39,7 @@ PROPS = {
     ),
     "C02": dict(
         regress="TestC02Regress",
-        subs=[dict(test="TestC02RoundTrip", quick=5000, thorough=40000)],
+        subs=[dict(test="TestC02RoundTrip", quick=10000, thorough=160000)],
         rule="Generated documents: primary data nil / resource / Resources (mixed types) / SoftCollection / WrapperCollection / Identifier / "
              "Identifiers, 0-5 included, JSON-model meta, 0-3 error objects with any subset of members, any prefix, arbitrary selections "
              "(absent, empty, subset, unknown names, id, duplicates) and RelData; oracle = member-by-member comparison of the unmarshaled document "
@@ -49,7 +49,7 @@ PROPS = {
     ),
     "C03": dict(
         regress="TestC03Regress",
-        subs=[dict(test="TestC03WellFormed", quick=5000, thorough=40000)],
+        subs=[dict(test="TestC03WellFormed", quick=10000, thorough=160000)],
         rule="Documents as in C02 (without pre-filled included) plus primary *Resources obtained from Range, document links, and a sequence of 0-10 "
              "Include calls whose arguments are primary members, equal-content twins, earlier arguments and fresh resources; oracle = independent "
              "JSON:API structure validator over the output bytes (valid JSON, jsonapi, links.self, data xor errors, included only with data, "
@@ -61,7 +61,7 @@ PROPS = {
     ),
     "C04": dict(
         regress="TestC04Regress",
-        subs=[dict(test="TestC04Fieldsets", quick=5000, thorough=40000)],
+        subs=[dict(test="TestC04Fieldsets", quick=10000, thorough=160000)],
         rule="Documents as in C02 without errors; for every resource object (primary, member, included; several types per document) the oracle "
              "computes from type, selection list, RelData list and resource values: the exact attribute and relationship key sets, whether each "
              "relationship carries data, and the linkage (IDs as multiset with the target type, null for empty to-one). Non-trivial = a strict "
@@ -70,7 +70,7 @@ PROPS = {
     ),
     "C11": dict(
         regress="TestC11Regress",
-        subs=[dict(test="TestC11Deterministic", quick=3000, thorough=25000)],
+        subs=[dict(test="TestC11Deterministic", quick=6000, thorough=100000)],
         rule="Documents as in C02 with pairwise distinct included IDs; each is marshaled 6 times (fresh map iteration order each time) and once more "
              "as an equal-content twin with to-many IDs, selection names, RelData names and the included list permuted; oracle = byte identity of all "
              "outputs, equal URL.String, and an observable-state snapshot (all Get values, to-many as multisets, URL selection as sets) equal before "
@@ -81,8 +81,8 @@ PROPS = {
         regress="TestC06Regress",
         subs=[
             dict(test="TestC06Exhaustive", kind="plain"),
-            dict(test="TestC06Literal", quick=40000, thorough=400000),
-            dict(test="TestC06Payload", quick=10000, thorough=80000),
+            dict(test="TestC06Literal", quick=80000, thorough=1600000),
+            dict(test="TestC06Payload", quick=20000, thorough=320000),
         ],
         rule="Meaning-first literals: the generator draws what the JSON text denotes (integer as big.Int relative to the target width's "
              "boundaries +-3, wrap candidates n+k*2^w, magnitudes to 2^70; string; instant; byte string; bool; null; array; object) and renders it "
@@ -102,9 +102,9 @@ PROPS = {
     "C05": dict(
         regress="TestC05Regress",
         subs=[
-            dict(test="TestC05Structured", quick=4000, thorough=25000),
-            dict(test="TestC05Raw", quick=15000, thorough=150000),
-            dict(test="TestC05Payload", quick=8000, thorough=60000),
+            dict(test="TestC05Structured", quick=6000, thorough=50000),
+            dict(test="TestC05Raw", quick=30000, thorough=300000),
+            dict(test="TestC05Payload", quick=16000, thorough=120000),
         ],
         fuzz=[dict(target="FuzzC05", seconds=90)],
         rule="Structured hostile inputs: a valid document from the C02 generator is marshaled with every field selected, parsed into an ordered "
@@ -124,7 +124,7 @@ PROPS = {
     ),
     "C13": dict(
         regress="TestC13Regress",
-        subs=[dict(test="TestC13Partial", quick=15000, thorough=120000)],
+        subs=[dict(test="TestC13Partial", quick=30000, thorough=480000)],
         rule="Resource payloads built from a generated type with any subset of attributes and relationships present (relationship objects with "
              "data null / identifier / list / links only / meta only / ill-shaped, explicit nulls, 10% ill-typed literals, 10% unknown fields); "
              "oracle: differential against UnmarshalResource (accepted iff accepted, same values) plus the payload model (type name, attribute "
@@ -135,8 +135,8 @@ PROPS = {
     "C07": dict(
         regress="TestC07Regress",
         subs=[
-            dict(test="TestC07Parse", quick=15000, thorough=120000),
-            dict(test="TestC07Raw", quick=10000, thorough=100000),
+            dict(test="TestC07Parse", quick=30000, thorough=240000),
+            dict(test="TestC07Raw", quick=20000, thorough=200000),
         ],
         fuzz=[dict(target="FuzzC07", seconds=90)],
         rule="Structured requests over generated coherent schemas: a request description (path of one of the shapes /t, /t/id, /t/id/rel, "
@@ -158,8 +158,8 @@ PROPS = {
     "C08": dict(
         regress="TestC08Regress",
         subs=[
-            dict(test="TestC08FixedPoint", quick=15000, thorough=120000),
-            dict(test="TestC08Metamorphic", quick=10000, thorough=80000),
+            dict(test="TestC08FixedPoint", quick=30000, thorough=480000),
+            dict(test="TestC08Metamorphic", quick=20000, thorough=320000),
         ],
         rule="Accepted URLs from the structured generator in 'valid' mode (IDs, page values, filter labels and filter strings drawn from the "
              "reserved-character generator; nested and/or filter trees with large numbers; page[other]; repeated sort/include). Fixed point: String() "
@@ -175,7 +175,7 @@ PROPS = {
     ),
     "C09": dict(
         regress="TestC09Regress",
-        subs=[dict(test="TestC09Range", quick=8000, thorough=60000)],
+        subs=[dict(test="TestC09Range", quick=16000, thorough=240000)],
         rule="A generated type with 1-4 attributes over all kinds, a collection of 0-10 resources with unique IDs and values from 3-value domains "
              "(ties are common; nil values for nullable kinds) held as SoftCollection / Resources of soft resources / Resources of wrapped structs / "
              "WrapperCollection; an ID list (empty, or a permuted duplicate-free subset plus an absent ID); nil or a well-typed filter tree built "
@@ -192,8 +192,8 @@ PROPS = {
         regress="TestC10Regress",
         subs=[
             dict(test="TestC10Matrix", kind="plain"),
-            dict(test="TestC10Leaf", quick=30000, thorough=250000),
-            dict(test="TestC10Tree", quick=15000, thorough=120000),
+            dict(test="TestC10Leaf", quick=60000, thorough=1000000),
+            dict(test="TestC10Tree", quick=30000, thorough=480000),
         ],
         rule="Leaf sub-check: one attribute of any of the 28 kinds, a resource value and a filter value drawn as a pair class (equal - for times "
              "the same instant in another zone -, adjacent +-1 / one byte changed / prefix, random, nil on either side), all seven operators "
@@ -207,7 +207,7 @@ PROPS = {
     ),
     "C14": dict(
         regress="TestC14Regress",
-        subs=[dict(test="TestC14Edits", quick=6000, thorough=50000)],
+        subs=[dict(test="TestC14Edits", quick=12000, thorough=200000)],
         rule="rapid state machine (t.Repeat, ~30 steps on average) over one Schema: AddType (well-formed Type values, names from {a,b,ab,c,''} so "
              "duplicates and empty names are frequent), RemoveType (absent, first, middle, last), AddAttr (valid, duplicate, empty, unknown type, "
              "invalid kinds 0/99/-1 with and without Nullable), RemoveAttr, AddRel (valid, duplicate, empty name, empty target, unknown type), RemoveRel, "
@@ -221,7 +221,7 @@ PROPS = {
     ),
     "C15": dict(
         regress="TestC15Regress",
-        subs=[dict(test="TestC15Check", quick=20000, thorough=150000)],
+        subs=[dict(test="TestC15Check", quick=40000, thorough=600000)],
         rule="Schemas of 1-5 soft types built directly from Type literals with 0-8 relationships: existing or missing targets, one-way and two-way, "
              "inverses present / missing / misnamed / on another type / with wrong FromType, self references and own-inverse relationships; half of the "
              "schemas get no planted fault. Oracle: independent per-relationship predicate (dangling target; inverse named and FromType != owner or no "
@@ -232,8 +232,8 @@ PROPS = {
     "C17": dict(
         regress="TestC17Regress",
         subs=[
-            dict(test="TestC17ReadBack", quick=2500, thorough=20000),
-            dict(test="TestC17Equality", quick=10000, thorough=80000),
+            dict(test="TestC17ReadBack", quick=4000, thorough=60000),
+            dict(test="TestC17Equality", quick=20000, thorough=320000),
         ],
         rule="ReadBack: rapid state machine driving, in lock-step, a SoftResource and a wrapped reflect.StructOf struct of the same generated type "
              "(1-6 attributes over the 28 kinds, 1 in 6 with all 28; to-one and to-many relationships) and a map model: Set with a value of the declared "
@@ -249,8 +249,8 @@ PROPS = {
     "C18": dict(
         regress="TestC18Regress",
         subs=[
-            dict(test="TestC18Copy", quick=4000, thorough=30000),
-            dict(test="TestC18Type", quick=8000, thorough=60000),
+            dict(test="TestC18Copy", quick=8000, thorough=120000),
+            dict(test="TestC18Type", quick=16000, thorough=240000),
         ],
         rule="A resource (soft or wrapped StructOf struct) of a generated type that always has a byte string, a nullable byte string, a nullable string, "
              "two to-many and one to-one relationship next to random attributes, filled with values (3 in 4 cases force non-empty bytes and a 3-ID list); "
@@ -264,7 +264,7 @@ PROPS = {
     ),
     "C19": dict(
         regress="TestC19Regress",
-        subs=[dict(test="TestC19Store", quick=2500, thorough=15000)],
+        subs=[dict(test="TestC19Store", quick=4000, thorough=45000)],
         rule="rapid state machine on a SoftCollection whose type was set (attributes from {p,q,s} over 7 kinds, relationships from {m,o}): Add of a "
              "resource of exactly the collection's type or of a freshly drawn narrower / wider / conflicting type, soft or wrapped, with IDs from a "
              "4-element pool (duplicates frequent); Remove (present anywhere or missing); AddAttr / AddRel (new and duplicate names); SetType to a copy of "
@@ -278,7 +278,7 @@ PROPS = {
     ),
     "C20": dict(
         regress="TestC20Regress",
-        subs=[dict(test="TestC20Shapes", quick=25000, thorough=200000)],
+        subs=[dict(test="TestC20Shapes", quick=50000, thorough=800000)],
         rule="Struct shapes built at run time with reflect.StructOf: an ID field in one of 10 forms (fine, absent, json tag other/absent, api tag "
              "empty/absent, int, []byte, *string, named Id) and 0-8 further exported fields in random order, each a proper attribute (28 kinds), a "
              "proper relationship (rel,t / rel,t,inv / rel,t,), or anything: one of 37 Go types (supported and float64, []int, map, struct, **string, "
@@ -296,8 +296,8 @@ PROPS = {
         regress="TestC12Regress",
         race=True,
         subs=[
-            dict(test="TestC12Sequential", quick=1500, thorough=10000),
-            dict(test="TestC12Concurrent", quick=300, thorough=2500),
+            dict(test="TestC12Sequential", quick=1500, thorough=20000),
+            dict(test="TestC12Concurrent", quick=300, thorough=5000),
         ],
         rule="A generated coherent schema with 2-3 soft and StructOf-backed types shared by all operations; operations with their own pre-generated "
              "inputs: parse a URL (valid or hostile), UnmarshalDocument, UnmarshalPartialResource, GetType(name).New() + Set/Get, marshal an own "
